@@ -174,6 +174,42 @@ example : Emit.ninjaQuoteBuild "a b:c$é".toList = some "a$ b$:c$$é".toList := 
 example : Emit.ninjaQuoteBuild "a|b".toList = none := by decide
 example : isTerm ':' := .inr (.inl rfl)
 
+/-- the names the round trip covers: non-empty, accepted by `ninja_quote(…, True)`, no carriage return -/
+theorem goodName_iff (p : Str) :
+    GoodName p ↔ p ≠ [] ∧ (∃ q, Emit.ninjaQuoteBuild p = some q) ∧ '\r' ∉ p := by
+  rw [quote_accepts_iff]
+  unfold GoodName PlainChar
+  constructor
+  · intro ⟨hne, h⟩
+    exact ⟨hne, ⟨fun hc => (h _ hc).1 rfl, fun hc => (h _ hc).2.2 rfl⟩, fun hc => (h _ hc).2.1 rfl⟩
+  · intro ⟨hne, ⟨h1, h2⟩, h3⟩
+    refine ⟨hne, fun c hc => ⟨?_, ?_, ?_⟩⟩
+    · intro h; subst h; exact h1 hc
+    · intro h; subst h; exact h3 hc
+    · intro h; subst h; exact h2 hc
+
+/-- **parse ∘ print** for the build statements: the text that `NinjaBuildElement.write` lays out for a list of build
+lines (`Emit.printBuilds`: `build outs[ | implicit outs]: rule ins[ | deps][ || order-only deps]`, a blank line after
+each) is read back by the manifest parser as exactly those statements — every name as a string of literal pieces, in
+the same group, in the same order — for all lines whose names are good (`goodName_iff`), with at least one explicit
+output and a rule name of identifier characters. No size side condition: the fuel `parse` derives from the text
+length always suffices. -/
+theorem parse_print_manifest (bs : List Emit.OutBuild) (hg : ∀ b ∈ bs, GoodLine0 b) :
+    parse (Emit.printBuilds bs) = .ok (bs.map (fun b => Stmt.build (synOf b))) :=
+  parse_printBuilds bs hg
+
+/-- non-vacuity: a line with every group present and names holding blank, `$`, `:` -/
+def exLine : Emit.OutBuild :=
+  { outs := ["a b".toList, "c$".toList], implOuts := ["i:1".toList], rule := "c_COMPILER".toList,
+    ins := ["x.c".toList], deps := ["d".toList], orderdeps := ["g.h".toList, "é".toList] }
+
+example : Emit.printBuilds [exLine]
+    = "build a$ b c$$ | i$:1: c_COMPILER x.c | d || g.h é\n\n".toList := by decide
+
+example : GoodLine0 exLine := by
+  refine ⟨?_, by decide, ?_, ⟨by decide, by decide⟩, ?_, ?_, ?_⟩ <;>
+    (unfold GoodName PlainChar exLine; decide)
+
 /-! ## (c) the emission discipline -/
 
 open MesonModel.Ninja.Emit
